@@ -15,6 +15,12 @@ CHECKS = {
          "(b) CrossHair: toXmlName/coerceElement/coerceAttribute/fromXmlName on all names up to length 3 (quick) / 4 (thorough) over a 12-character class alphabet: result accepted by expat, legal names unchanged, round trip, injectivity (thorough); coerceComment on all Unicode strings up to length 5/7 with symbolic flags; coercePubid up to length 3.",
     note="expat is the XML-name oracle (XML 1.0 4th ed.); alphabet-to-all-characters step rests on (a) and on toXmlName using characters only through the two regexes; non-BMP outside the claim. " + NOTE_COMMON,
     design="§3 C20"),
+ "C02": dict(
+    technique="bounded symbolic execution (CrossHair/z3) of the real tokenizer state methods from catalogue pre-states on a symbolic continuation of arbitrary Unicode characters, differentially against an independent transcription of the WHATWG tokenizer (R1)",
+    text="For every state method of the live HTMLTokenizer class (catalogue rebuilt from /repo at check time: 119 pre-states over 7 configurations = 5 start states x last start tag x CDATA allowed/not) the real tokenizer is run from that pre-state on EVERY string of <= 2 (quick) / 3 (thorough) Unicode characters followed by end of input, "
+         "and the emitted tokens (parse errors dropped, character tokens merged) are compared with R1. Each obligation is closed over all code points by the solver (NUL, non-BMP, every delimiter class), which covers every state x next-character decision incl. EOF in every state, look-ahead (DOCTYPE/PUBLIC/SYSTEM/--/[CDATA[) and the character-reference entry points.",
+    note="R1/R10 references trusted (validated on 5.2 M concrete inputs); pre-states are those the catalogue prefixes build (pending token contents concrete), continuation bounded by K; CDATA NUL relocation is a listed known finding; attributeMap replaced by an equivalent linear-scan map. " + NOTE_COMMON,
+    design="§3 C02"),
  "C05": dict(
     technique="bounded symbolic execution (CrossHair/z3) of the real HTMLUnicodeInputStream over a source with symbolic read sizes and chunk size, against an ideal-stream reference; BufferedStream with symbolic read/seek script",
     text="(i) for every Unicode text of <= 3 (quick) / 4 (thorough) characters, every segmentation into three symbolic read sizes and every internal chunk size 1..3, char() delivers exactly the newline-normalised text (solver-closed over all code points: CR, LF, surrogates, NUL ...); "
